@@ -414,6 +414,15 @@ fn run_case(case: &Val) -> Val {
                 }
                 out.push(Val::L(vec![Val::n(5), Val::b(w.pending.is_empty())]));
             }
+            8 => {
+                // session end: unregister_peer drops the channel, the session state goes with it
+                w.registered = false;
+                w.chan.clear();
+                w.export_map = ExportMap::default();
+                w.pending = crate::peer_tx::PendingTx::new(aptx);
+                w.mirror.clear();
+                out.push(Val::L(vec![Val::n(7)]));
+            }
             _ => panic!("verif: bad op"),
         }
     }
